@@ -213,7 +213,14 @@ func c04core(r *simkit.Run, minSources int, forceFine bool) {
 		if len(kinds) == 0 {
 			break
 		}
+		if len(pk) > 0 {
+			kinds = append(kinds, "rewrap")
+		}
 		switch rapid.SampledFrom(kinds).Draw(rt, "op") {
+		case "rewrap":
+			// the chain is re-assembled around the limiter while requests are inside: the accounting is unaffected
+			cl.Wrap(handler)
+			r.Probe("rewrapped-with-requests-in-flight")
 		case "arrive":
 			q := arrive(rapid.IntRange(0, nsrc-1).Draw(rt, "src"))
 			if !fine {
